@@ -6,6 +6,7 @@ An unmodelled callee raises Unsupported in the engine (check ends INCONCLUSIVE).
 """
 import re
 import z3
+from .engine import f_marker_status, f_dec_canon, f_uuid_nil
 from .engine import (Adt, Ref, Cell, BoxCell, Opaque, Unsupported, clone, lit, lit_value, EMPTY, StrS, PANIC, some, NONE, ok, err, unit, U, Dec,
                      f_uuid_ok, f_uuid_hyph, f_dec_ok, f_dec_n, f_dec_d, f_addr_ok, f_marker_found, f_marker_dec, f_marker_type,
                      f_attr_ok, f_sv_ok, f_sv_maj, f_sv_min, f_sv_pat, f_sv_pre, f_numstr, strip_generics)
@@ -700,7 +701,12 @@ def m_dec_to_u128(ex, st, a, c, m):
 def m_dec_to_string(ex, st, a, c, m):
     x = dec(ex, a[0])
     if x.fields[3] is not None:
-        return [(True, f_deccanon(x.fields[3]))]
+        src = x.fields[3]
+        fact = (f_deccanon(src) == src) == f_dec_canon(src)          # printing a parsed decimal gives its own text back exactly for canonical texts
+        if not any(z3.eq(fact, p_) for p_ in st.pc):
+            st.pc.append(fact)
+            st.pc.append(f_dec_canon(f_deccanon(src)))
+        return [(True, f_deccanon(src))]
     return [(True, f_decstr(x.fields[0], x.fields[1]))]
 
 
@@ -1001,7 +1007,7 @@ def m_marker_query(ex, st, a, c, m):
 
 def m_marker_tryfrom(ex, st, a, c, m):
     d = a[0].fields[0]
-    acct = Adt('MarkerAccount', None, [Opaque('base_account'), Opaque('manager'), Opaque('acl'), Opaque('status'), d, Opaque('supply'),
+    acct = Adt('MarkerAccount', None, [Opaque('base_account'), Opaque('manager'), Opaque('acl'), f_marker_status(d), d, Opaque('supply'),
                                        f_marker_type(d), Opaque('sf'), Opaque('agc'), Opaque('aft'), Opaque('ra')])
     return [(f_marker_dec(d), ok(acct)), (z3.Not(f_marker_dec(d)), err(Adt('DecodeError', None, [])))]
 
@@ -1333,6 +1339,8 @@ def m_unwrap_or_default(ex, st, a, c, m):
     r = a[0]
     if r.variant in ('Ok', 'Some'):
         return [(True, r.fields[0])]
+    if 'Uuid' in c:
+        return [(True, Adt('Uuid', None, [lit('00000000-0000-0000-0000-000000000000')]))]
     if 'Uint128' in c:
         return [(True, U(0))]
     if 'String' in c:
@@ -1617,5 +1625,72 @@ def m_format_render(ex, st, a, c, m):
 RAW_MODELS[:0] = [
     (r'^core::fmt::rt::Argument::new_display$', m_fmt_arg('display')), (r'^core::fmt::rt::Argument::new_debug$', m_fmt_arg('debug')),
     (r'^Arguments::new$|^Arguments::new_const$', m_arguments_new), (r'^format$', m_format_render),
+]
+MODELS = [(re.compile(p), f) for p, f in RAW_MODELS]
+
+
+
+# ------------------------------------------------------------------ semver ordering, Option::filter, Iterator::take, Uuid nil
+f_pre_lt = z3.Function('prerelease_lt', StrS, StrS, z3.BoolSort())
+
+
+def m_version_cmp(ex, st, a, c, m):
+    x, y = ex.deref(a[0]), ex.deref(a[1])
+    xm, xi, xp, xpre = x.fields[0], x.fields[1], x.fields[2], x.fields[3].fields[0]
+    ym, yi, yp, ypre = y.fields[0], y.fields[1], y.fields[2], y.fields[3].fields[0]
+    lt3 = z3.Or(xm < ym, z3.And(xm == ym, xi < yi), z3.And(xm == ym, xi == yi, xp < yp))
+    eq3 = z3.And(xm == ym, xi == yi, xp == yp)
+    # same triple: a pre-release precedes the release; two pre-releases are ordered by their (unmodelled) identifiers
+    xs, ys = x.fields[5], y.fields[5]
+    both = f_pre_lt(xs, ys) if (xs is not None and ys is not None) else z3.Bool('prerelease_order!%d' % next(ex.fresh))
+    lt = z3.Or(lt3, z3.And(eq3, xpre, z3.Not(ypre)), z3.And(eq3, xpre, ypre, both))
+    eq = z3.And(eq3, xpre == ypre, z3.Implies(z3.And(xpre, ypre), (xs == ys) if (xs is not None and ys is not None) else z3.BoolVal(False)))
+    op = c.rsplit('::', 1)[1]
+    if op == 'cmp' or op == 'partial_cmp':
+        outs = [(lt, Adt('Ordering', 'Less', [])), (eq, Adt('Ordering', 'Equal', [])), (z3.And(z3.Not(lt), z3.Not(eq)), Adt('Ordering', 'Greater', []))]
+        return [(cnd, some(v) if op == 'partial_cmp' else v) for cnd, v in outs]
+    return [(True, {'lt': lt, 'le': z3.Or(lt, eq), 'gt': z3.And(z3.Not(lt), z3.Not(eq)), 'ge': z3.Not(lt), 'eq': eq, 'ne': z3.Not(eq)}[op])]
+
+
+def m_option_filter(ex, st, a, c, m):
+    o = a[0]
+    if o.variant == 'None':
+        return [(True, o)]
+    rs = _apply_fn(ex, st, a[1], c, [Ref(Cell(o.fields[0]), [])])
+    out = []
+    for cnd, keep in rs:
+        k = keep if isinstance(keep, z3.ExprRef) else z3.BoolVal(bool(keep))
+        out.append((k if cnd is True else z3.And(cnd, k), o))
+        out.append((z3.Not(k) if cnd is True else z3.And(cnd, z3.Not(k)), NONE()))
+    return out
+
+
+def m_iter_take(ex, st, a, c, m):
+    n = z3.simplify(a[1]) if isinstance(a[1], z3.ExprRef) else z3.IntVal(a[1])
+    if not z3.is_int_value(n):
+        raise Unsupported('take with a symbolic count')
+    items = _iter_items(ex, st, ex.deref(a[0]))
+    return [(True, Adt('Iter', None, [items[:n.as_long()], 0]))]
+
+
+NIL_UUID = lit('00000000-0000-0000-0000-000000000000')
+
+
+def m_uuid_is_nil(ex, st, a, c, m):
+    return [(True, f_uuid_nil(ex.deref(a[0]).fields[0]))]
+
+
+def m_uuid_unwrap_or_default(ex, st, a, c, m):
+    r = a[0]
+    if r.variant in ('Ok', 'Some'):
+        return [(True, r.fields[0])]
+    return [(True, Adt('Uuid', None, [NIL_UUID]))]
+
+
+RAW_MODELS[:0] = [
+    (r'^<semver::Version as (PartialOrd|Ord|PartialEq)>::(lt|le|gt|ge|eq|ne|cmp|partial_cmp)$', m_version_cmp),
+    (r'^std::option::Option::filter$', m_option_filter), (r'^<.* as Iterator>::take$', m_iter_take),
+    (r'^uuid::Uuid::is_nil$|^uuid::.*<impl uuid::Uuid>::is_nil$', m_uuid_is_nil),
+    (r'^Result::<uuid::Uuid, .*>::unwrap_or_default$', m_uuid_unwrap_or_default),
 ]
 MODELS = [(re.compile(p), f) for p, f in RAW_MODELS]
